@@ -5,7 +5,7 @@
 # Proofs/DumpTie.v against it.  When a lemma fails, its proof is replaced by an admission IN THE SCRATCH COPY ONLY
 # and the file is compiled again, so that the exact set of broken lemmas is found (not just the first one).
 # Expected: the baseline and the equivalent mutant compile; every semantic mutant breaks exactly the listed
-# lemmas; an edit outside the translated fragment gives TRANSLATE-ERROR (exit 2).  The cases run in parallel.
+# lemmas; an edit outside the translated fragment gives TRANSLATE-ERROR (exit 3: the unit fails alone; 2: fatal).  The cases run in parallel.
 # usage: [ONLY=regex] tools/dumptie_selftest.sh     (needs the main tree built: coq/Proofs/BufTie.vo, InvStep.vo, PenInv.vo)
 ROOT=$(cd "$(dirname "$0")/.." && pwd)
 COQ=$ROOT/coq
